@@ -96,14 +96,17 @@ def main():
     parser.add_argument("--tier", default="quick")
     parser.add_argument("--seeds", default="0,5")
     parser.add_argument("--write", action="store_true")
+    parser.add_argument("--parallel", type=int, default=1)
     args = parser.parse_args()
     seeds = [int(s) for s in args.seeds.split(",")]
     chosen = [m for m in MUTANTS
               if (not args.only or m["property"] in args.only.split(",")) and
               (not args.id or m["id"] == args.id)]
     results = []
-    for mut in chosen:
-        res = run_one(mut, args.tier, seeds)
+    from concurrent.futures import ThreadPoolExecutor
+    with ThreadPoolExecutor(max_workers=args.parallel) as pool:
+        done = list(pool.map(lambda m: run_one(m, args.tier, seeds), chosen))
+    for res in done:
         results.append(res)
         flag = "DETECTED" if res["detected"] else "MISSED  "
         extra = "" if res["tests_pass"] else "  (repo tests FAIL with this mutant - disqualified)"
